@@ -16,19 +16,52 @@ import (
 // Target is one Go function the tie is claimed for.  Key is "Func" or "Recv.Method".
 type Target struct {
 	Pkg, Key string
-	// receiver / struct-parameter methods abstracted as function parameters ("dcache3.evaluate")
-	Opaque map[string]bool
+	// receiver / struct-parameter methods abstracted as function parameters ("dcache3.evaluate");
+	// they become parameters of the translation in THIS order (not in order of first use)
+	Opaque []string
 	// fields of a struct literal of this package that are not modelled (maps, mutexes, the SDF)
 	SkipFields map[string]bool
 	// prefix target: translate the statements before the first one calling Upto and yield the
 	// values of the Go expressions Yield there (the rest of the function is not tied)
 	Upto  string
 	Yield []string
-	// trace target: a function without a result whose effects are calls of the listed functions
-	// (exprString of the callee -> "call": the function itself, recursively; "out": an output).
+	// trace target: a function without a result whose effects are calls of itself and outputs.
 	// The translation is the list of events (RgLib.rg_ev) in execution order; everything else in
-	// the body must be pure.
-	Trace map[string]string
+	// the body must be pure.  Helpers of the same package that have no result are inlined.
+	Trace *TraceSpec
+}
+
+// TraceSpec names the sinks of a trace target semantically (not by the spelling of the call):
+// Self is the key of the target ("dcache3.processCube": a call of that method on a value of the
+// receiver's type, whatever it is called); Out lists "pkg.Interface.Method" called on a parameter
+// of that interface type.
+type TraceSpec struct {
+	Self string
+	Out  map[string]bool
+}
+
+func (t *Target) opaque(key string) bool {
+	if t == nil {
+		return false
+	}
+	for _, k := range t.Opaque {
+		if k == key {
+			return true
+		}
+	}
+	return false
+}
+
+// position of an opaque method among the parameters ("evaluate" of struct "dcache3")
+func (t *Target) opaqueRank(sn, method string) int {
+	if t != nil {
+		for i, k := range t.Opaque {
+			if k == sn+"."+method {
+				return i
+			}
+		}
+	}
+	return 1 << 20
 }
 
 func set(ss ...string) map[string]bool {
@@ -52,14 +85,14 @@ func Targets() []Target {
 		{Pkg: "render", Key: "msInterpolate"},
 		{Pkg: "render", Key: "msToLines"},
 		// render/march3x.go, render/march2x.go
-		{Pkg: "render", Key: "dcache3.isEmpty", Opaque: set("dcache3.evaluate")},
-		{Pkg: "render", Key: "dcache2.isEmpty", Opaque: set("dcache2.evaluate")},
+		{Pkg: "render", Key: "dcache3.isEmpty", Opaque: []string{"dcache3.evaluate"}},
+		{Pkg: "render", Key: "dcache2.isEmpty", Opaque: []string{"dcache2.evaluate"}},
 		{Pkg: "render", Key: "newDcache3", SkipFields: set("s", "cache", "lock")},
 		{Pkg: "render", Key: "newDcache2", SkipFields: set("s", "cache", "lock")},
-		{Pkg: "render", Key: "dcache3.processCube", Opaque: set("dcache3.isEmpty", "dcache3.evaluate"),
-			Trace: map[string]string{"dc.processCube": "call", "output.Write": "out"}},
-		{Pkg: "render", Key: "dcache2.processSquare", Opaque: set("dcache2.isEmpty", "dcache2.evaluate"),
-			Trace: map[string]string{"dc.processSquare": "call", "output.Write": "out"}},
+		{Pkg: "render", Key: "dcache3.processCube", Opaque: []string{"dcache3.isEmpty", "dcache3.evaluate"},
+			Trace: &TraceSpec{Self: "dcache3.processCube", Out: set("sdf.Triangle3Writer.Write")}},
+		{Pkg: "render", Key: "dcache2.processSquare", Opaque: []string{"dcache2.isEmpty", "dcache2.evaluate"},
+			Trace: &TraceSpec{Self: "dcache2.processSquare", Out: set("sdf.Line2Writer.Write")}},
 		{Pkg: "render", Key: "dcache3.evaluate", Upto: "dc.read", Yield: []string{"v"}},
 		{Pkg: "render", Key: "dcache2.evaluate", Upto: "dc.read", Yield: []string{"v"}},
 		// render/delaunay.go
@@ -90,17 +123,29 @@ type Def struct {
 	params   []typ
 	flat     []string // struct parameters that were flattened
 	mutator  bool
+	konst    *val // a constant: its value
+	helper   bool // a function of package render that is not a target (Hint Unfold ... : rg_helpers)
 }
 
 type Param struct{ Name, Type string }
 
 type gen struct {
-	fset   *token.FileSet
-	pkgs   map[string]*pkg
-	byPath map[string]*pkg
-	defs   map[string]*Def
-	busy   map[string]bool
-	order  []*Def
+	fset    *token.FileSet
+	pkgs    map[string]*pkg
+	byPath  map[string]*pkg
+	defs    map[string]*Def
+	iconsts map[string]val // integer constants (used by value, no definition)
+	busy    map[string]bool
+	order   []*Def
+}
+
+func isTarget(p, key string) bool {
+	for _, t := range Targets() {
+		if t.Pkg == p && t.Key == key {
+			return true
+		}
+	}
+	return false
 }
 
 func defName(p, key string) string { return "rg_" + p + "_" + strings.ReplaceAll(key, ".", "_") }
@@ -120,7 +165,10 @@ func binders(ps []Param) string {
 func (g *gen) constant(p *pkg, name string) (val, error) {
 	id := p.name + "." + name
 	if d, ok := g.defs[id]; ok {
-		return val{s: d.Name, t: tT, konst: true}, nil
+		return *d.konst, nil
+	}
+	if v, ok := g.iconsts[id]; ok {
+		return v, nil
 	}
 	ex := p.consts[name]
 	if ex == nil {
@@ -137,6 +185,7 @@ func (g *gen) constant(p *pkg, name string) (val, error) {
 		return val{}, err
 	}
 	if v.untyped && v.isInt {
+		g.iconsts[id] = v
 		return v, nil // an integer constant is used by value
 	}
 	if v, err = f.coerce(ex, v, tT); err != nil {
@@ -148,9 +197,13 @@ func (g *gen) constant(p *pkg, name string) (val, error) {
 	pos := g.fset.Position(ex.Pos())
 	d := &Def{Pkg: p.name, Key: name, Name: defName(p.name, name), Pos: fmt.Sprintf("%s:%d", f.file.rel, pos.Line), Ret: "T O", ret: tT}
 	d.text = fmt.Sprintf("  (* %s: const %s *)\n  Definition %s : T O := %s.\n", d.Pos, name, d.Name, v.s)
+	// the definition documents the constant; uses carry its VALUE (so that a named constant and the
+	// same literal written in place translate to the same term)
+	kv := val{s: v.s, t: tT, konst: true, rat: v.rat}
+	d.konst = &kv
 	g.defs[id] = d
 	g.order = append(g.order, d)
-	return val{s: d.Name, t: tT, konst: true, rat: v.rat}, nil
+	return kv, nil
 }
 
 // a package-level `var name = [n]T{..}`: translated as data; no statement of the package may
@@ -298,7 +351,7 @@ func (g *gen) translate(p *pkg, key string, opt *Target) (*Def, error) {
 	}
 	g.busy[id] = true
 	defer delete(g.busy, id)
-	f := &fctx{g: g, p: p, file: p.fileOf[key], key: key, opt: opt}
+	f := &fctx{g: g, p: p, file: p.fileOf[key], key: key, opt: opt, ev: &evTypes{}}
 	if fd.Body == nil {
 		return nil, f.errf(fd, "no body")
 	}
@@ -313,28 +366,39 @@ func (g *gen) translate(p *pkg, key string, opt *Target) (*Def, error) {
 	var slots []slot
 	var ptypes []typ
 	var flat []string
-	bind := func(n ast.Node, name string, t typ) error {
+	bind := func(n ast.Node, name string, t typ, tx ast.Expr, recv bool) error {
+		_, isPtr := tx.(*ast.StarExpr)
+		if name == "_" {
+			if t.k != kOpaque {
+				return f.errf(n, "unnamed parameter")
+			}
+			return nil
+		}
 		switch t.k {
 		case kStruct:
-			b := &binding{coq: coqIdent(name), t: t, flat: true, used: map[string]typ{}}
-			e[name] = b
+			b := f.newBinding(e, name, t)
+			b.flat, b.used = true, map[string]typ{}
 			slots = append(slots, slot{name, b})
 			flat = append(flat, name)
 		case kOpaque:
 			if t.named == "sdf.SDF2" || t.named == "sdf.SDF3" {
 				// an SDF argument: only its BoundingBox() may be used; it becomes the parameter <name>_BoundingBox
-				b := &binding{coq: coqIdent(name), t: t, flat: true, used: map[string]typ{}}
-				e[name] = b
+				b := f.newBinding(e, name, t)
+				b.flat, b.used = true, map[string]typ{}
 				slots = append(slots, slot{name, b})
 				flat = append(flat, name)
 			} else {
-				e[name] = &binding{coq: "?", t: t}
+				f.newBinding(e, name, t).coq = "?"
 			}
 		case kUnit, kOpt:
 			return f.errf(n, "parameter %s of type %s", name, t.goName())
 		default:
-			b := &binding{coq: coqIdent(name), t: t}
-			e[name] = b
+			// a caller would see what the function writes through a pointer / into a slice
+			if !recv && (isPtr || t.k == kList && t.n < 0) && writesThrough(fd.Body, name) {
+				return f.errf(n, "the function writes through its parameter %s", name)
+			}
+			b := f.newBinding(e, name, t)
+			b.ptr = isPtr
 			slots = append(slots, slot{name, b})
 			ptypes = append(ptypes, t)
 		}
@@ -355,7 +419,7 @@ func (g *gen) translate(p *pkg, key string, opt *Target) (*Def, error) {
 		if len(names) != 1 {
 			return nil, f.errf(fd, "unnamed receiver")
 		}
-		if err := bind(fd, names[0].Name, t); err != nil {
+		if err := bind(fd, names[0].Name, t, fd.Recv.List[0].Type, true); err != nil {
 			return nil, err
 		}
 		if assignsTo(fd.Body, names[0].Name) {
@@ -374,7 +438,7 @@ func (g *gen) translate(p *pkg, key string, opt *Target) (*Def, error) {
 			return nil, f.errf(fl, "unnamed parameter")
 		}
 		for _, nm := range fl.Names {
-			if err := bind(fl, nm.Name, t); err != nil {
+			if err := bind(fl, nm.Name, t, fl.Type, false); err != nil {
 				return nil, err
 			}
 		}
@@ -398,9 +462,9 @@ func (g *gen) translate(p *pkg, key string, opt *Target) (*Def, error) {
 				if !ok {
 					continue
 				}
-				e[nm.Name] = &binding{coq: coqIdent(nm.Name), t: t}
+				b := f.newBinding(e, nm.Name, t)
 				f.named = append(f.named, nm.Name)
-				pre += "    let " + coqIdent(nm.Name) + " := " + z + " in\n"
+				pre += "    let " + b.coq + " := " + z + " in\n"
 			}
 		}
 	}
@@ -414,18 +478,25 @@ func (g *gen) translate(p *pkg, key string, opt *Target) (*Def, error) {
 	rt = f.ret
 	if f.trace {
 		for k := 0; k < 2; k++ {
-			if !f.evSet[k] {
-				f.evT[k] = tUnit
+			if !f.ev.set[k] {
+				f.ev.t[k] = tUnit
 			}
 		}
-		rt = listType(typ{k: kEvent, args: []typ{f.evT[0], f.evT[1]}}, -1)
+		rt = listType(typ{k: kEvent, args: []typ{f.ev.t[0], f.ev.t[1]}}, -1)
 	}
 	if rt.k == kStruct || rt.k == kOpaque || rt.k == kUnit {
 		return nil, f.errf(fd, "result type %s", rt.goName())
 	}
-	// parameters: a struct parameter is replaced by the fields (declaration order) and opaque methods it uses
+	// parameters: a struct parameter is replaced by the fields (declaration order) and opaque methods
+	// (the order the target lists them in) it uses
 	var params []Param
 	for _, s := range slots {
+		if s.b.t.k == kStruct {
+			sn := s.b.t.named[strings.Index(s.b.t.named, ".")+1:]
+			sort.SliceStable(s.b.order, func(i, j int) bool {
+				return opt.opaqueRank(sn, s.b.order[i]) < opt.opaqueRank(sn, s.b.order[j])
+			})
+		}
 		if !s.b.flat {
 			params = append(params, Param{s.b.coq, s.b.t.coq()})
 			continue
@@ -459,6 +530,7 @@ func (g *gen) translate(p *pkg, key string, opt *Target) (*Def, error) {
 	pos := g.fset.Position(fd.Pos())
 	d := &Def{Pkg: p.name, Key: key, Name: defName(p.name, key), Pos: fmt.Sprintf("%s:%d", f.file.rel, pos.Line),
 		Params: params, Ret: rt.coq(), ret: rt, params: ptypes, flat: flat, mutator: mutator, Prefix: prefix}
+	d.helper = p.name == "render" && !isTarget(p.name, key)
 	goSig := "func " + key
 	if fd.Recv != nil {
 		rn, ptr := recvTypeName(fd)
@@ -498,7 +570,7 @@ type Result struct {
 
 // Translate runs the translator on the source tree at repo.
 func Translate(repo string) (*Result, error) {
-	g := &gen{fset: token.NewFileSet(), pkgs: map[string]*pkg{}, byPath: map[string]*pkg{}, defs: map[string]*Def{}, busy: map[string]bool{}}
+	g := &gen{fset: token.NewFileSet(), pkgs: map[string]*pkg{}, byPath: map[string]*pkg{}, defs: map[string]*Def{}, iconsts: map[string]val{}, busy: map[string]bool{}}
 	for _, s := range []struct{ name, dir string }{
 		{"v2", "vec/v2"}, {"v3", "vec/v3"}, {"v2i", "vec/v2i"}, {"v3i", "vec/v3i"}, {"conv", "vec/conv"},
 		{"sdf", "sdf"}, {"render", "render"},
@@ -529,7 +601,15 @@ func Translate(repo string) (*Result, error) {
 		b.WriteString(d.text)
 		b.WriteString("\n")
 	}
-	b.WriteString("End RenderExpr.\n")
+	b.WriteString("End RenderExpr.\n\n")
+	// functions of package render that are not targets (helpers a maintainer may introduce or remove at
+	// will): the equality proofs unfold them wherever they look at the shape of a term
+	b.WriteString("Create HintDb rg_helpers.\n")
+	for _, d := range g.order {
+		if d.helper {
+			b.WriteString("#[export] Hint Unfold " + d.Name + " : rg_helpers.\n")
+		}
+	}
 	return &Result{Defs: g.order, Text: []byte(b.String())}, nil
 }
 
